@@ -342,6 +342,9 @@ def main(ctx):
     ctx.extra['mir'] = info
     ctx.bounds.append('M: all paths of the validators/gates with callee results unconstrained; is_disjoint over all 2^(2n) presence patterns')
     ctx.outside += ['header parameter values', 'custom-parameter maps (is_custom_disjoint is a callee here)',
-                    'verification without protected alg is decided under C01 (verify audit)']
+                    ]
     guarded(ctx, 'header policy audit', 'M', lambda: run(ctx, prog))
+    # verification requires alg in the *protected* header: C01's obligation on JwsValidationItem::verify, re-used
+    import c01
+    guarded(ctx, 'alg at verification', 'M', lambda: c01.run(ctx, prog, only=r'^verify/|^JwsValidationItem::alg/'))
     guarded(ctx, 'validate_crit / has', 'M', lambda: crit_audit(ctx, prog))
